@@ -75,7 +75,10 @@ class MockInliner:
             # so we make a temporary parent to parse into
             container = nodes.Element()
             with self._renderer.current_node_context(container):
-                self._renderer.nested_render_text(text, lineno, inline=True)
+                # note lineno is 1-based, whereas nested_render_text takes the 0-based line
+                self._renderer.nested_render_text(
+                    text, max(lineno - 1, 0), inline=True
+                )
 
         return container.children, []
 
